@@ -154,6 +154,12 @@ type vhsrvBackend struct {
 	faultCall  int
 	faultAns   vhsrvAns
 	faultHit   bool
+	// gate (overlap scenarios): the first call of method gateMeth-1 announces itself on gateEntered and
+	// then waits for gateRelease before it returns
+	gateMeth    int
+	gateHit     bool
+	gateEntered chan struct{}
+	gateRelease chan struct{}
 }
 
 func vhsrvNewBackend(r *rand.Rand) *vhsrvBackend {
@@ -262,7 +268,16 @@ func (b *vhsrvBackend) consult(m int, h uint64, names []string, h2 int64, a []ui
 		b.inTail = true
 	}
 	wrap := b.rng.Intn(2) == 0
+	var gateWait chan struct{}
+	if b.gateMeth > 0 && m == b.gateMeth-1 && !b.gateHit {
+		b.gateHit = true
+		gateWait = b.gateRelease
+		close(b.gateEntered)
+	}
 	b.mu.Unlock()
+	if gateWait != nil {
+		<-gateWait
+	}
 	if ans.Panic {
 		panic("vhsrv: injected backend panic")
 	}
@@ -871,4 +886,107 @@ func (w *vhsrvWorld) finish(h *vhsrvHist) {
 	if h.UseAfter == nil {
 		h.UseAfter = []string{}
 	}
+}
+
+// ---------------------------------------------------------------------------
+// two requests in flight together (C04 "a fid opens at most once" under overlap)
+
+// vhsrvPar is the observation of two requests A, B sent on one connection so that B is received while A is
+// inside the gated backend call: both replies and the backend calls of the window, in call order.
+type vhsrvPar struct {
+	Kind  string      `json:"kind"` // "par"
+	ID    string      `json:"id"`
+	A     vhsrvStep   `json:"a"`
+	B     vhsrvStep   `json:"b"`
+	Calls []vhsrvCall `json:"calls"`
+	Steps []vhsrvStep `json:"steps"` // always empty (keeps the record shaped like a history for the evaluator)
+	Gated bool        `json:"gated"` // A reached the gated call before B was sent
+}
+
+func vhsrvFillReply(st *vhsrvStep, r message) {
+	st.RT = int(r.typ())
+	switch x := r.(type) {
+	case *rlerror:
+		st.Errno = uint64(x.Error)
+	case *rlopen:
+		st.Vals = []uint64{x.QID.Path, uint64(x.IoUnit)}
+	}
+}
+
+// doPar sends qa, waits (event, not time) until the backend is inside the first call of method gateMeth, sends qb,
+// gives the server `pause` to bring qb as far as it gets, opens the gate and collects both replies.  The pause
+// only decides how far qb got: whatever it is, the observation is one the model must allow.
+func (w *vhsrvWorld) doPar(qa, qb vhsrvReq, gateMeth int, pause time.Duration) (vhsrvPar, error) {
+	cn := w.conns[qa.C]
+	w.b.beginRequest()
+	entered, release := make(chan struct{}), make(chan struct{})
+	w.b.mu.Lock()
+	w.b.gateMeth, w.b.gateHit, w.b.gateEntered, w.b.gateRelease = gateMeth+1, false, entered, release
+	if qa.FaultAns != nil {
+		w.b.faultArmed, w.b.faultCall, w.b.faultAns, w.b.faultMeth = true, 0, *qa.FaultAns, gateMeth+1
+	}
+	w.b.mu.Unlock()
+	released := false
+	defer func() {
+		if !released {
+			close(release)
+		}
+		w.b.mu.Lock()
+		w.b.gateMeth, w.b.faultArmed, w.b.faultMeth = 0, false, 0
+		w.b.mu.Unlock()
+	}()
+	out := vhsrvPar{Kind: "par", A: vhsrvStep{Req: qa, Vals: []uint64{}, Calls: []vhsrvCall{}, Fids: []uint64{}}, B: vhsrvStep{Req: qb, Vals: []uint64{}, Calls: []vhsrvCall{}, Fids: []uint64{}}, Steps: []vhsrvStep{}}
+	cn.tag++
+	ta := cn.tag
+	cn.tag++
+	tb := cn.tag
+	type rep struct {
+		tg  tag
+		m   message
+		err error
+	}
+	reps := make(chan rep, 2)
+	go func() {
+		for i := 0; i < 2; i++ {
+			cn.c.SetReadDeadline(time.Now().Add(20 * time.Second))
+			tg, r, err := recv(ulog.Null, cn.c, 16<<20, msgDotLRegistry.get)
+			reps <- rep{tg, r, err}
+			if err != nil {
+				return
+			}
+		}
+	}()
+	if err := send(ulog.Null, cn.c, tag(ta), qa.msg()); err != nil {
+		return out, fmt.Errorf("send A: %v", err)
+	}
+	select {
+	case <-entered:
+		out.Gated = true
+	case <-time.After(5 * time.Second):
+	}
+	if err := send(ulog.Null, cn.c, tag(tb), qb.msg()); err != nil {
+		return out, fmt.Errorf("send B: %v", err)
+	}
+	time.Sleep(pause)
+	close(release)
+	released = true
+	for i := 0; i < 2; i++ {
+		r := <-reps
+		if r.err != nil {
+			return out, fmt.Errorf("recv: %v", r.err)
+		}
+		switch uint16(r.tg) {
+		case ta:
+			vhsrvFillReply(&out.A, r.m)
+		case tb:
+			vhsrvFillReply(&out.B, r.m)
+		default:
+			return out, fmt.Errorf("reply with tag %d (sent %d and %d)", r.tg, ta, tb)
+		}
+	}
+	out.Calls = w.b.takeCalls()
+	if out.Calls == nil {
+		out.Calls = []vhsrvCall{}
+	}
+	return out, nil
 }
